@@ -342,6 +342,8 @@ func C19() *engine.Check {
 			c19TokenSub(),
 			c19SeqSub(),
 			c19ReadSeqSub(),
+			c19PrefixSub(),
+			c19KeyBufSub(),
 			c19ConcSub(), concRaceSub("C19"),
 		},
 		Assumptions: []string{
